@@ -1046,8 +1046,56 @@ func c10PythonMutableDefaults(ctx *Ctx, r *Report) {
 				}
 			}
 		}
+		// … and the collection / object kinds must have left the loop body before it: an earlier branch of the same
+		// block that names the kind and ends in continue / return
+		if mutable == "" {
+			excluded := map[string]bool{}
+			var stmt ast.Node = c
+			for stmt != nil {
+				par := parents[stmt]
+				if blk, ok := par.(*ast.BlockStmt); ok {
+					for _, st := range blk.List {
+						if st.Pos() >= stmt.Pos() {
+							break
+						}
+						cur, _ := st.(*ast.IfStmt)
+						for cur != nil {
+							if endsInExitOrPanic(info, cur.Body) {
+								ast.Inspect(cur.Cond, func(q ast.Node) bool {
+									switch x := q.(type) {
+									case *ast.SelectorExpr:
+										if k := kindOfConst[x.Sel.Name]; k != "" {
+											excluded[k] = true
+										}
+										if k := kindOfPredicateExact[x.Sel.Name]; k != "" {
+											excluded[k] = true
+										}
+									}
+									return true
+								})
+							}
+							next, _ := cur.Else.(*ast.IfStmt)
+							cur = next
+						}
+					}
+				}
+				if _, ok := par.(*ast.FuncDecl); ok {
+					break
+				}
+				stmt = par
+			}
+			var open []string
+			for _, k := range []string{"array", "map", "struct", "ref"} {
+				if !excluded[k] {
+					open = append(open, k)
+				}
+			}
+			if len(open) > 0 {
+				mutable = "no earlier branch takes fields of kind " + strings.Join(open, ", ") + " out of the loop body"
+			}
+		}
 		r.Check(mutable == "", "skeleton/python-immutable-defaults", fmt.Sprintf("python generateInitMethod literal default #%d", n), c.Pos(), "only written for values that are not lists / dicts / objects",
-			"generateInitMethod writes a literal default into the __init__ signature in a branch selected by `"+mutable+"`: Python evaluates it once, so every instance built without that argument shares (and mutates) the same list / dict — the second default-constructed object no longer holds the declared default")
+			"generateInitMethod writes a literal default into the __init__ signature ("+mutable+"): Python evaluates it once, so every instance built without that argument shares (and mutates) the same list / dict — the second default-constructed object no longer holds the declared default")
 		return true
 	})
 	r.Count("literal defaults written into Python signatures", n)
